@@ -18,6 +18,7 @@ FAMILIES = {
     "c13": ("U13", "P13"),
     "c14": ("U14", "P14"),
     "c01": ("U01", "P01"),
+    "c15": ("U15", "P15"),
 }
 INVARIANTS = "Confluent DryRunNoChange NoCollateralDelete DeleteComplete ContentIdentical RepeatIsNoOp FilterExact"
 ACTIONS = ["SDeletePass", "SGen", "SRcv", "SFinish"]
